@@ -328,6 +328,52 @@ func SV_C14_vote_expire_finalize() {
 				credited.Add(credited, d)
 			}
 			sv.Assert(credited.Cmp(pre.funds) <= 0, "distribution-never-exceeds-the-contributions")
+			// exact shares of the configured distribution (percent x 10000 / 10^6, floor)
+			dist := []int64{18, 18, 18, 18, 10, 18} // passed: validators, fee pool, burn, execution cost, bounty, proposer
+			if want == governance.VOTE_RESULT_FAILED {
+				dist = []int64{10, 10, 10, 20, 50, 0}
+			}
+			share := func(pct int64) *big.Int {
+				x := new(big.Int).Mul(pre.funds, big.NewInt(pct*10000))
+				return x.Div(x, big.NewInt(1000000))
+			}
+			nval := int64(0)
+			for i := 0; i < e.n; i++ {
+				if pre.isVal[i] {
+					nval++
+				}
+			}
+			perVal := new(big.Int).Div(share(dist[0]), big.NewInt(nval))
+			wantGain := map[string]*big.Int{}
+			add := func(cell string, v *big.Int) {
+				if wantGain[cell] == nil {
+					wantGain[cell] = new(big.Int)
+				}
+				wantGain[cell].Add(wantGain[cell], v)
+			}
+			for i := 0; i < e.n; i++ {
+				if pre.isVal[i] {
+					add("b:"+svPartyName(i)+":OLT", perVal)
+				}
+			}
+			add("b:"+svPartyName(pre.proposer)+":OLT", share(dist[5]))
+			add("b:pool:bounty:OLT", share(dist[4]))
+			add("b:execCost:OLT", share(dist[3]))
+			rest := new(big.Int).Set(pre.funds)
+			for _, k := range []int{0, 2, 3, 4, 5} {
+				rest.Sub(rest, share(dist[k]))
+			}
+			add("f:pool", rest)
+			for k, c := range r.after.cells {
+				if c.Name == "propFunds:total" || c.Name == "propFunds:bystander" {
+					continue
+				}
+				w := wantGain[c.Name]
+				if w == nil {
+					w = new(big.Int)
+				}
+				sv.Assert(new(big.Int).Sub(c.V, r.before.cells[k].V).Cmp(w) == 0, "each-recipient-gets-exactly-its-configured-share")
+			}
 			sv.Cover(true, fmt.Sprint("finalized-from-", st0 == governance.ProposalStatePassed))
 		}
 		// a second finalise changes nothing
